@@ -13,7 +13,7 @@ SPEC = dict(
              '(c06_store_load, c06_decode_encode); any list of values stored into an empty builder loads back equal with nothing left '
              '(c06_sequence, induction); whenever load_X returns, preload_X returns the same and leaves the slice unchanged (c06_preload_eq_load, '
              'every kind incl. preload_address); var-int length prefixes are minimal for both signs (c06_varint_minimal) and the byte-length computations of store_var_uint/store_var_int are '
-             're-translated from builder.py on every run and proved equal to the TL-B minimal lengths for ALL integers (c06_src_varint_len, c06_src_varuint_len); snake chains: see c06_snake*. '
+             're-translated from builder.py on every run and proved equal to the TL-B minimal lengths for ALL integers (c06_src_varint_len, c06_src_varuint_len); snake chains of ANY length into any within-capacity builder (c06_snake_depth_exact, with the depth-checking cell constructor of C01): the chain for n bytes after p prefilled bits has depth exactly 0 if n <= (1023-p)//8 else ceil((n - (1023-p)//8)/127); store_snake_bytes returns iff that is <= 1024, end_cell on the result succeeds iff it is <= 1023 (the library raises the depth error beyond), whenever the store returns load_snake_bytes gives the bytes back, and the cells are the TL-B SnakeData chain of the 127-byte chunks (c06_snake_is_snakedata). '
              'The model is tied to the working tree by differential testing: seeded scripts run on the library and on the compiled model, and '
              'each script is also checked on the library alone against an independent Python TL-B encoder, peek/load round trip and leftovers.',
         level_note='Proved for all inputs: the statements above, about Model/Builder.lean. Only sampled: that builder.py/slice.py/tvm_bitarray.py/'
@@ -26,7 +26,7 @@ SPEC = dict(
     design_ref='DESIGN.md §6 C06',
     rule='seeded sequences of typed values that fit a cell (ints of widths 1..257 at 0/1/max/top-bit/min/-1, var-ints of every byte-length '
          'class incl. top-bit-set values, coins, bits, bytes, refs, maybe-refs, addr_none/extern(len 0..511)/std(+anycast)), snake byte strings '
-         'of boundary lengths, optional dicts (HashmapE bit + ref), strings (store_string/load_string/preload_string incl. multi-byte UTF-8), '
+         'of boundary lengths (chunk boundaries x prefills 0/8/3/1016/1023; chain depths 1023/1024/1025 for prefills 0/3/11/1016: root depth compared with the closed form, raise point store vs end_cell), optional dicts (HashmapE bit + ref), strings (store_string/load_string/preload_string incl. multi-byte UTF-8), '
          'store_snake_string with and without prefix; each stored, compared bit-for-bit with an independent TL-B encoder, peeked and loaded back, and run through '
          'the Lean model; distinct = distinct script; non-trivial = script has >= 1 value',
     trusted_base=['Model/Builder.lean mirrors builder.py/slice.py/TvmBitarray/address.to_cell by hand (BOp/SOp state functions)',
@@ -116,15 +116,38 @@ def snake(ctx, n, prefill):
     inp = {'ops': [o[:80] for o in ops], 'len': n, 'prefill': prefill}
     ctx.case(('snake', n, prefill), sample={'snake_len': n, 'prefill': prefill})
     ctx.count('snake')
-    flags, bits, refs, fin, b = S.exec_builder([], ops)
-    cells_needed = 1 + max(0, -(-(n - (1023 - prefill) // 8) // 127)) if n else 1
-    if '0' in flags or fin == 'err':
-        # depth > 1023 is the only legitimate reason
-        if cells_needed <= 1024:
-            ctx.fail('snake-store', f'store_snake_bytes of {n} bytes refused', inp, flags + fin, 'stored')
+    try:
+        flags, bits, refs, fin, b = S.exec_builder([], ops)
+    except Exception as e:      # e.g. a non-cell object left in the reference list
+        ctx.fail('snake-store', f'store_snake_bytes of {n} bytes (prefill {prefill}) left the builder in a state that cannot be inspected', inp,
+                 type(e).__name__ + ': ' + str(e)[:100], 'stored')
         return
-    if cells_needed > 1024:
-        ctx.fail('snake-depth', f'store_snake_bytes of {n} bytes produced a chain of {cells_needed} cells (depth > 1023)', inp, 'stored', 'exception')
+    # closed form of c06_snake_depth_exact: room (1023 - prefill) // 8 in the first builder, 127 bytes per tail cell
+    room = (1023 - prefill) // 8
+    depth = 0 if n <= room else -(-(n - room) // 127)
+    sn_flag = flags[-1]
+    # the model run with C01's depth-checking constructor: same flags, partial writes and end_cell outcome (all lengths)
+    ctx.expect_model(bline([], ops), f'ok {flags} {bits} {refs} {fin}', f'snake len {n} prefill {prefill}')
+    if depth > 1024:
+        # a tail cell of depth 1024 would be needed: store_snake_bytes itself must raise
+        if sn_flag != '0':
+            ctx.fail('snake-depth', f'store_snake_bytes of {n} bytes (prefill {prefill}) built a chain of depth {depth} > 1024', inp, flags + ' ' + fin, 'store raises')
+        return
+    if '0' in flags:
+        ctx.fail('snake-store', f'store_snake_bytes of {n} bytes refused (chain depth {depth})', inp, flags + fin, 'stored')
+        return
+    if depth == 1024:
+        # every tail cell (depth <= 1023) exists, the root would have depth 1024: end_cell must raise
+        if fin != 'err':
+            ctx.fail('snake-depth', f'a snake of {n} bytes (prefill {prefill}) was finished into a cell of depth 1024', inp, fin, 'end_cell raises')
+        return
+    if fin == 'err':
+        ctx.fail('snake-store', f'end_cell refused a snake of {n} bytes with chain depth {depth} <= 1023', inp, flags + fin, 'stored')
+        return
+    got_depth = b.end_cell().get_depth()
+    ctx.count('snake-depth-checked')
+    if got_depth != depth:
+        ctx.fail('snake-depth-exact', f'chain depth of a {n}-byte snake with {prefill} bits prefilled is not ceil((n - room) / 127)', inp, got_depth, depth)
         return
     s = b.end_cell().begin_parse()
     if prefill:
@@ -135,8 +158,6 @@ def snake(ctx, n, prefill):
         back = e
     if prefill % 8 == 0 and back != data:
         ctx.fail('snake-load', f'load_snake_bytes differs from stored data (len {n})', inp, repr(back)[:100], data.hex()[:100])
-    if n <= 40000:
-        ctx.expect_model(bline([], ops), f'ok {flags} {bits} {refs} {fin}', f'snake len {n} prefill {prefill}')
     if n <= 2000 and prefill % 8 == 0:
         dag = S.cell_dag(b.end_cell())
         lops = ([f'sk:{prefill}'] if prefill else []) + ['lsn']
@@ -302,6 +323,14 @@ def run(ctx):
     snake(ctx, 127 * 1024 + 1, 0)
     snake(ctx, 127 * 1023, 1016)
     snake(ctx, 127 * 1023 + 1, 1016)
+    # depth 1025: the deepest tail cell cannot be built, store_snake_bytes itself raises; non-byte-aligned prefill at its boundaries
+    snake(ctx, 127 * 1025 + 1, 0)
+    snake(ctx, 127 * 1024, 1016)
+    snake(ctx, 127 * 1024 + 1, 1016)
+    snake(ctx, 127 + 127 * 1023, 3)
+    snake(ctx, 127 + 127 * 1023 + 1, 3)
+    snake(ctx, 126 + 127 * 1023, 11)
+    snake(ctx, 126 + 127 * 1023 + 1, 11)
     api_extras(ctx)
 
 
@@ -309,4 +338,8 @@ def replay(ctx, payload):
     inp = payload.get('input') or {}
     if 'ops' in inp and 'dag' in inp:
         dag = [(k, b, tuple(r)) for k, b, r in inp['dag']]
-        check_roundtrip(ctx, dag, G.lib_build(dag), inp['ops'], inp.get('tag', 'replay'))
+        for form in range(6):            # the argument form of store_bit rotates with a process-wide counter: replay every phase
+            S._BIT_FORM[0] = form
+            check_roundtrip(ctx, dag, G.lib_build(dag), inp['ops'], inp.get('tag', 'replay'))
+    elif 'len' in inp and 'prefill' in inp:
+        snake(ctx, int(inp['len']), int(inp['prefill']))
